@@ -50,6 +50,8 @@ def run(ctx):
     # the upstream-level dial/lifecycle extension mostly waits for real 5 s dial timeouts: run it concurrently
     import updial_extra
     _bg_updial = vlib.background(ctx, updial_extra.run_extra, "updial_extra")
+    import pipeconn_c07
+    _bg_pipeconn_c07 = vlib.background(ctx, pipeconn_c07.run_extra, "pipeconn_c07")
     T = ctx.thorough()
     W = 8 if T else 4
     ctx.assumptions += [
@@ -148,8 +150,7 @@ def run(ctx):
 
     # ---- the same property on the real TraditionalDnsConn (deadline arming / connection death under PipelineTransport):
     # spec/PipeConnArm.tla resp. LazyPipe.tla, harness/drv_pipeconn, drv_pipeline (checks/pipeconn_c07.py)
-    import pipeconn_c07
-    pipeconn_c07.run_extra(ctx)
+    _bg_pipeconn_c07.join()
 
     # ---- the layer above the transports: dial phases, dial timeout and Close through the real upstream.NewUpstream
     # against loopback servers (spec/UpDial.tla, harness/drv_updial, checks/updial_extra.py)
